@@ -52,6 +52,9 @@ TRUSTED = [
     "the Lean JSON-schema evaluator (Prelude/JsonSchema.lean) and the extractor's transcription of access_log.schema.json are "
     "compared with python-jsonschema on generated instances at every run, not proved equal to it",
     "`_encoded_len` of the formatter is an arbitrary oracle in the model (any function); K2 feeds the real answers",
+    "the call-state cache (LRU, TTL) is an arbitrary hit/miss oracle per request in the model (`Env.cacheHit`); where "
+    "`_unpack_and_recover_state` publishes the stream id (hit path / miss path / both) is extracted (`sidOnHit`, `sidOnMiss`) and the "
+    "runs cover cache sizes 0 / 1 / 2 / default, interleaved streams and a cold second worker",
     "subprocess transport not exercised (same serve loop as pipe); auth / claims only through synthetic records (formatter)",
 ]
 PARTIAL = [
@@ -71,7 +74,9 @@ RULE = (
     "nothing}, init ok/raise, header on/off; pulls in {to the end, k, several, 0}; sends 0..len+2 incl. past an error; close / "
     "cancel) with exception messages from {empty, short, multi-line, unicode, 500, 501, 2000, 100000 chars} x transports {pipe, "
     "unix, tcp, shm, http(no cap, zstd), http(cap 300: unary/exchange overshoot), http(cap 2000), http(cap 1e6, gzip/none)} x "
-    "logger level {INFO, DEBUG}; a case = (program, transport, level); non-trivial when it has a stream or a failing call; "
+    "logger level {INFO, DEBUG} x (HTTP) call-state cache {default, 0 = every continuation misses, 1 = evicted by any other stream} x "
+    "{one worker, cold second worker serving everything after /init} x {calls in sequence, all stream calls alive at once and served "
+    "round-robin}; a case = (program, transport, level, cache, worker, interleaving); non-trivial when it has a stream or a failing call; "
     "plus generated schema instances (valid base + 1-3 mutations incl. pattern near-misses) and formatter runs at caps 120-1500"
 )
 MANIFEST = {
@@ -125,20 +130,43 @@ class Rig:
         self._orig_post = self._cls.post
         orig = self._orig_post
 
+        # a second worker: its own WSGI app (own, cold call-state cache) over the same server and token key; every request
+        # after /init (continuation, exchange turn, cancel) is routed to it when `self.cold` is set
+        self.cold = False
+        self._cold: dict[int, Any] = {}
+        cold_of = self._cold
+
         def post(self_: Any, url: str, *, content: bytes, headers: dict[str, str]) -> Any:
             svcgen.EVENTS.append(("post", url))
+            target = cold_of.get(id(self_)) if url.endswith("/exchange") else None
             try:
-                return orig(self_, url, content=content, headers=headers)
+                return orig(target if target is not None else self_, url, content=content, headers=headers)
             finally:
                 svcgen.EVENTS.append(("postdone", url))
 
         self._cls.post = post  # type: ignore[method-assign]
+        self._testing = _testing
+        self._orig_make = _testing.make_sync_client
+        orig_make = self._orig_make
+        rig = self
+
+        def make(server: Any, **kw: Any) -> Any:
+            c = orig_make(server, **kw)
+            if rig.cold:
+                b = orig_make(server, **kw)
+                b._default_headers = c._default_headers  # one header dict: svcgen sets Accept-Encoding on the first only
+                cold_of[id(c)] = b
+            return c
+
+        _testing.make_sync_client = make  # type: ignore[assignment]
 
     def level(self, debug: bool) -> None:
         self.lg.setLevel(logging.DEBUG if debug else logging.INFO)
 
     def close(self) -> None:
         self._cls.post = self._orig_post  # type: ignore[method-assign]
+        self._testing.make_sync_client = self._orig_make  # type: ignore[assignment]
+        self._cold.clear()
         self.lg.removeHandler(self.cap)
         lvl, prop, hs = self._old
         self.lg.setLevel(lvl)
@@ -392,6 +420,127 @@ def split_events(events: list[tuple[Any, ...]], http: bool, ncalls: int) -> list
     return calls if len(calls) == ncalls else None
 
 
+def split_by_name(events: list[tuple[Any, ...]], recs: list[logging.LogRecord], prog: list[dict[str, Any]]) -> list[dict[str, Any]] | None:
+    """HTTP, calls with pairwise distinct methods (so they may be interleaved): attribute every POST (by its URL) and every
+    record (by its `method`) to the call of that method."""
+    by: dict[str, dict[str, Any]] = {c["m"]["name"]: {"records": [], "dispatches": 0, "turns": []} for c in prog}
+    if len(by) != len(prog):
+        return None
+    turn: dict[str, Any] | None = None
+    for ev in events:
+        k = ev[0]
+        if k == "post":
+            parts = str(ev[1]).strip("/").split("/")
+            name = parts[-2] if parts[-1] in ("init", "exchange") and len(parts) >= 2 else parts[-1]
+            cur = by.get(name)
+            if cur is None:
+                return None
+            cur["dispatches"] += 1
+            turn = {"url": ev[1], "process": [], "records": 0}
+            cur["turns"].append(turn)
+        elif k == "postdone":
+            turn = None
+        elif k == "process" and turn is not None:
+            turn["process"].append(ev[2])
+        elif k == "record":
+            cur = by.get(getattr(recs[ev[1]], "method", None))
+            if cur is None or turn is None:
+                return None
+            cur["records"].append(ev[1])
+            turn["records"] += 1
+    return [by[c["m"]["name"]] for c in prog]
+
+
+def run_interleaved(desc: dict[str, Any], prog: list[dict[str, Any]], cfg: Config, wsgi_kwargs: dict[str, Any] | None,
+                    deadline: float = 30.0) -> dict[str, Any]:
+    """Several sessions alive at once on ONE client / worker: open every call of `prog` in order, then serve their pulls /
+    sends round-robin (one client op at a time), then close / cancel each.  Per call the same ops, in the same order, as
+    `script_of` would issue them — only interleaved with the other calls' ops.  Returns per-call traces."""
+    import threading
+
+    from vgi_rpc.rpc import RpcError
+
+    svcgen.EVENTS.clear()
+    P, impl = svcgen.build(desc)
+    cur: list[list[Any]] = []
+    traces: list[list[list[Any]]] = [[] for _ in prog]
+    result: dict[str, Any] = {"hung": False}
+
+    def body() -> None:
+        conn = svcgen.Conn(P, impl, cfg, lambda m: cur.append(svcgen._ev_log(m)), None, wsgi_kwargs)
+        sess: list[Any] = [None] * len(prog)
+        its: list[Any] = [None] * len(prog)
+
+        def op(i: int, kind: str, arg: Any = None) -> None:
+            cur.clear()
+            c = prog[i]
+            try:
+                if kind == "call":
+                    cur.append(["value", getattr(conn.proxy, c["m"]["name"])(a=i)])
+                elif kind == "open":
+                    sess[i] = getattr(conn.proxy, c["m"]["name"])(a=i)
+                    if sess[i].header is not None:
+                        cur.append(["header", sess[i].header.h])
+                    cur.append(["opened"])
+                elif sess[i] is None:
+                    cur.append(["nosession"])
+                elif kind == "iter":
+                    if its[i] is None:
+                        its[i] = iter(sess[i])
+                    got = 0
+                    while arg is None or got < arg:
+                        try:
+                            ab = next(its[i])
+                        except StopIteration:
+                            cur.append(["end"])
+                            break
+                        cur.append(svcgen._ev_data(ab))
+                        got += 1
+                elif kind == "send":
+                    cur.append(svcgen._ev_data(sess[i].exchange(svcgen.make_input(arg, "ok"))))
+                elif kind == "close":
+                    sess[i].close()
+                    cur.append(["closed"])
+                elif kind == "cancel":
+                    sess[i].cancel()
+                    cur.append(["cancelled"])
+            except RpcError as e:
+                cur.append(svcgen._ev_err(e))
+            except StopIteration:
+                cur.append(["end"])
+            except Exception as e:  # noqa: BLE001
+                cur.append(["raised", type(e).__name__, str(e)[:200]])
+            traces[i].append([list(x) for x in cur])
+
+        try:
+            queues: list[list[tuple[str, Any]]] = []
+            for i, c in enumerate(prog):
+                if c["kind"] == "unary":
+                    op(i, "call")
+                    queues.append([])
+                    continue
+                op(i, "open")
+                queues.append([("iter", n) for n in c["iters"]] if c["kind"] == "producer" else [("send", k) for k in range(c["sends"])])
+            while any(queues):
+                for i, q in enumerate(queues):
+                    if q:
+                        kind, arg = q.pop(0)
+                        op(i, kind, arg)
+            for i, c in enumerate(prog):
+                if c["kind"] != "unary":
+                    op(i, c["fin"])
+        finally:
+            conn.close()
+
+    th = threading.Thread(target=body, daemon=True)
+    th.start()
+    th.join(deadline)
+    result["hung"] = th.is_alive()
+    result["traces"] = [[list(o) for o in t] for t in traces]
+    result["events"] = list(svcgen.EVENTS)
+    return result
+
+
 def brk_of(c: dict[str, Any], turns: list[dict[str, Any]]) -> list[int]:
     """Break positions of a producer call read off the process() indices of each POST (see module docstring, K1)."""
     if c["kind"] != "producer":
@@ -447,29 +596,59 @@ def slim(obj: dict[str, Any]) -> dict[str, Any]:
     return {k: (v if not isinstance(v, str) or len(v) <= 80 else f"<{len(v)} chars: {v[:30]!r}…>") for k, v in obj.items()}
 
 
-def check_run(ctx: Any, rig: Rig, prog: list[dict[str, Any]], cfg: Config, debug: bool, small_caps: list[int]) -> None:
+def check_run(ctx: Any, rig: Rig, prog: list[dict[str, Any]], cfg: Config, debug: bool, small_caps: list[int], *,
+              cache: int | None = None, cold: bool = False, interleave: bool = False) -> None:
+    """One program on one transport.  HTTP only: `cache` = the worker's call_state_cache_entries (None = the default 4096;
+    0 = every continuation / exchange turn / cancel resolves its call from the echoed token; 1 = evicted by any other stream),
+    `cold` = every request after /init goes to a second worker that never saw the /init, `interleave` = all calls of the
+    program (pairwise distinct methods) are alive at once and served round-robin."""
     desc = service_of(prog)
     script = script_of(prog)
-    case = {"prog": prog, "cfg": [cfg.kind, cfg.cap, cfg.codec], "debug": debug}
     http = cfg.kind == "http"
+    if not http:
+        cache, cold, interleave = None, False, False
+    case = {"prog": prog, "cfg": [cfg.kind, cfg.cap, cfg.codec], "debug": debug}
+    if http:
+        case.update({"cache": cache, "cold": cold, "interleave": interleave})
     fam = "http" if http else "socket"
+    where = cfg.label() + (f"[cache={'default' if cache is None else cache}{',cold-worker' if cold else ''}{',interleaved' if interleave else ''}]"
+                           if http else "")
     rig.level(debug)
     rig.cap.records.clear()
-    r = svcgen.run_script(desc, script, cfg, deadline=30)
+    rig.cold = cold
+    rig._cold.clear()
+    wk = {"call_state_cache_entries": cache} if cache is not None else None
+    try:
+        if interleave:
+            r = run_interleaved(desc, prog, cfg, wk)
+        else:
+            r = svcgen.run_script(desc, script, cfg, deadline=30, wsgi_kwargs=wk)
+    finally:
+        rig.cold = False
     recs = list(rig.cap.records)
     nontrivial = any(c["kind"] != "unary" or "raise" in c["m"]["out"] for c in prog)
-    ctx.case(case, nontrivial=nontrivial, tags=(f"t:{cfg.label()}", f"level:{'DEBUG' if debug else 'INFO'}"))
-    if r["hung"] or len(r["trace"]) != len(script):
-        ctx.fail(case, f"C34:hung:{fam}", f"script did not complete on {cfg.label()} ({len(r['trace'])}/{len(script)} ops)")
-        return
-    spans = op_spans(prog)
-    traces = [r["trace"][a:b] for a, b in spans]
-    split = split_events(r["events"], http, len(prog))
+    tags = [f"t:{cfg.label()}", f"level:{'DEBUG' if debug else 'INFO'}"]
+    if http:
+        tags += [f"call-state-cache:{'default' if cache is None else cache}"] + (["cold-worker"] if cold else []) + (["interleaved"] if interleave else [])
+    ctx.case(case, nontrivial=nontrivial, tags=tags)
+    if interleave:
+        if r["hung"]:
+            ctx.fail(case, f"C34:hung:{fam}", f"interleaved program did not complete on {where}")
+            return
+        traces = r["traces"]
+        split = split_by_name(r["events"], recs, prog)
+    else:
+        if r["hung"] or len(r["trace"]) != len(script):
+            ctx.fail(case, f"C34:hung:{fam}", f"script did not complete on {where} ({len(r['trace'])}/{len(script)} ops)")
+            return
+        spans = op_spans(prog)
+        traces = [r["trace"][a:b] for a, b in spans]
+        split = split_events(r["events"], http, len(prog))
     lines = [fmt_line(x) for x in recs]
 
     # ---------------------------------------------------------------- O: once
     if split is None:
-        ctx.fail(case, f"C34:once:{fam}:unattributable", f"records / dispatches of {cfg.label()} cannot be attributed to the program's "
+        ctx.fail(case, f"C34:once:{fam}:unattributable", f"records / dispatches of {where} cannot be attributed to the program's "
                  f"calls: events {short(r['events'], 500)}")
         return
     if sum(len(s["records"]) for s in split) != len(recs):
@@ -478,7 +657,7 @@ def check_run(ctx: Any, rig: Rig, prog: list[dict[str, Any]], cfg: Config, debug
     for i, (c, s) in enumerate(zip(prog, split)):
         if len(s["records"]) != s["dispatches"]:
             ctx.fail({**case, "call": i}, f"C34:once:{fam}:{c['kind']}:{len(s['records'])}-records-for-{s['dispatches']}-dispatches",
-                     f"call {i} ({c['m']['name']}) on {cfg.label()}: {s['dispatches']} dispatch(es), {len(s['records'])} record(s)")
+                     f"call {i} ({c['m']['name']}) on {where}: {s['dispatches']} dispatch(es), {len(s['records'])} record(s)")
         for t in s["turns"]:
             if t["records"] != 1:
                 ctx.fail({**case, "call": i}, f"C34:once:http:post:{t['records']}-records", f"POST {t['url']} wrote {t['records']} records")
@@ -498,7 +677,7 @@ def check_run(ctx: Any, rig: Rig, prog: list[dict[str, Any]], cfg: Config, debug
             for path, msg in violations(obj)[:2]:
                 word = msg.split("'")[1] if "'" in msg and "required" in msg else path
                 ctx.fail({**case, "record": j, "cap": cap}, f"C34:schema:{path}:{word}:{'sentinel' if obj.get('truncated') == 'record_too_large' else 'full'}",
-                         f"record {j} of {cfg.label()} (max_record_bytes={cap}) fails access_log.schema.json at {path}: {msg[:200]} — {short(slim(obj))}")
+                         f"record {j} of {where} (max_record_bytes={cap}) fails access_log.schema.json at {path}: {msg[:200]} — {short(slim(obj))}")
             if cap != DEFAULT_CAP:
                 ctx.tag(f"small-cap-stage:{obj.get('truncated', 'fits')}")
                 check_formatted_keeps(ctx, {**case, "record": j, "cap": cap}, line, obj)
@@ -513,7 +692,10 @@ def check_run(ctx: Any, rig: Rig, prog: list[dict[str, Any]], cfg: Config, debug
         return
     env = {"server_id": s2j(lines[0]["server_id"]), "protocol": s2j(lines[0]["protocol"]), "protocol_hash": s2j(lines[0]["protocol_hash"]),
            "server_version": s2j(lines[0].get("server_version", "")), "debug": debug, "principal": s2j(""), "auth_domain": s2j(""),
-           "authenticated": False, "claims": False, "request_id": s2j("r"), "http_remote": s2j(lines[0]["remote_addr"] if http else "")}
+           "authenticated": False, "claims": False, "request_id": s2j("r"), "http_remote": s2j(lines[0]["remote_addr"] if http else ""),
+           # the model's cache oracle (its records do not depend on it while the id is published on both paths): all requests
+           # miss with the cache disabled, on a cold worker's first request, and under 1-entry interleaving
+           "hit_default": not (cache == 0 or cold or (cache == 1 and interleave))}
     mprog = []
     for c, s, tr in zip(prog, split, traces):
         if http:
@@ -589,7 +771,11 @@ def oracle_call(ctx: Any, case: dict[str, Any], c: dict[str, Any], rl: list[dict
         if sids != {None} and rl:
             ctx.fail(case, f"C34:stream_id:{fam}:on-unary", f"unary record of {name} carries stream_id {sids}")
     elif rl and (len(sids) != 1 or None in sids):
-        ctx.fail(case, f"C34:stream_id:{fam}:{'missing' if None in sids else 'differs'}", f"records of stream {name} carry stream ids {sorted(map(str, sids))}")
+        miss = case.get("cache") == 0 or case.get("cold") or (case.get("cache") == 1 and case.get("interleave"))
+        ctx.fail(case, f"C34:stream_id:{fam}:{'missing' if None in sids else 'differs'}{':call-state-cache-miss' if miss else ''}",
+                 f"records of stream {name} carry stream ids {sorted(map(str, sids))}"
+                 + (f" (call_state_cache_entries={case.get('cache')}, cold worker={bool(case.get('cold'))}, interleaved={bool(case.get('interleave'))}: "
+                    "continuations resolve the call from the echoed call token, not from the cache)" if miss else ""))
     for x in rl:
         if x["method"] != name or x["method_type"] != ("unary" if c["kind"] == "unary" else "stream"):
             ctx.fail(case, f"C34:once:{fam}:wrong-method", f"record {slim(x)} attributed to call of {name}")
@@ -902,6 +1088,26 @@ def _corpus() -> list[list[dict[str, Any]]]:
     ]
 
 
+def _interleaved_corpus() -> list[list[dict[str, Any]]]:
+    """Streams of distinct methods to be kept alive together (1-entry cache: each request evicts the other stream's call)."""
+    E = lambda c, a: {"raise": {"cls": c, "arg": a}}  # noqa: E731
+    S = lambda act: {"logs": [], "act": act, "post": []}  # noqa: E731
+    em = lambda i: {"emit": {"id": i, "rows": 1, "meta": {}}}  # noqa: E731
+
+    def M(name: str, kind: str, steps: list[Any], header: bool = False) -> dict[str, Any]:
+        return {"name": name, "kind": kind, "header": header, "hdr": 3, "init_logs": [], "init": "ok", "steps": steps}
+
+    pa = M("ia", "producer", [S(em(1)), S(em(2)), S(em(3))])
+    pb = M("ib", "producer", [S(em(4)), S(em(5)), S(E("ValueError", ""))], header=True)
+    xa = M("ja", "exchange", [S(em(6)), S(em(7))])
+    xb = M("jb", "exchange", [S(em(8)), S(E("KeyError", "k"))])
+    return [
+        [{"kind": "producer", "m": pa, "iters": [None], "fin": "close"}, {"kind": "producer", "m": pb, "iters": [1, 1, None], "fin": "cancel"}],
+        [{"kind": "exchange", "m": xa, "sends": 3, "fin": "cancel"}, {"kind": "exchange", "m": xb, "sends": 3, "fin": "close"},
+         {"kind": "producer", "m": pa, "iters": [1, 1], "fin": "cancel"}],
+    ]
+
+
 def configs(rng: Any, which: str) -> list[Config]:
     sock = [Config("pipe"), Config("unix"), Config("tcp"), Config("shm")]
     http = [Config("http", None, "zstd"), Config("http", 300, None), Config("http", 2000, "zstd"), Config("http", 1_000_000, "gzip"),
@@ -920,11 +1126,33 @@ def run(ctx: Any) -> None:
                 check_run(ctx, rig, prog, cfg, debug=False, small_caps=[400, 900])
             check_run(ctx, rig, prog, Config("pipe"), debug=True, small_caps=[400])
             check_run(ctx, rig, prog, Config("http", None, "zstd"), debug=True, small_caps=[400, 3000])
+        # the call-state cache: continuations / exchange turns / cancels that do NOT find their call in the worker's cache
+        nocap, capped = Config("http", None, "zstd"), Config("http", 1_000_000, None)
+        for prog in _corpus():
+            for cfg in (nocap, capped):
+                check_run(ctx, rig, prog, cfg, debug=False, small_caps=[400], cache=0)
+                check_run(ctx, rig, prog, cfg, debug=False, small_caps=[400], cold=True)
+                check_run(ctx, rig, prog, cfg, debug=False, small_caps=[400], cache=1)
+        for prog in _interleaved_corpus():
+            for cache in (1, 0, None):
+                check_run(ctx, rig, prog, nocap, debug=False, small_caps=[400], cache=cache, interleave=True)
+            check_run(ctx, rig, prog, capped, debug=True, small_caps=[400], cache=1, interleave=True)
+            check_run(ctx, rig, prog, nocap, debug=False, small_caps=[400], cache=1, cold=True, interleave=True)
         thorough = ctx.tier == "thorough"
         for n in range(ctx.budget(22, 500)):
             prog = gen_program(rng, big=thorough or n % 5 == 0)
             for cfg in configs(rng, "all" if thorough else "some"):
-                check_run(ctx, rig, prog, cfg, debug=rng.random() < 0.35, small_caps=[rng.choice([250, 400, 650, 1000, 2500])])
+                check_run(ctx, rig, prog, cfg, debug=rng.random() < 0.35, small_caps=[rng.choice([250, 400, 650, 1000, 2500])],
+                          cache=rng.choice([None, None, 0, 1]), cold=rng.random() < 0.2)
+            # the program's stream calls (distinct methods) alive at once on one worker with a tiny / disabled / default cache
+            streams: list[dict[str, Any]] = []
+            for c in prog:
+                if c["m"]["name"] not in [x["m"]["name"] for x in streams]:
+                    streams.append(c)
+            if sum(c["kind"] != "unary" for c in streams) >= 2:
+                check_run(ctx, rig, streams, rng.choice([nocap, nocap, capped, Config("http", 2000, "zstd")]), debug=rng.random() < 0.3,
+                          small_caps=[rng.choice([400, 1000])], cache=rng.choice([1, 1, 1, 2, 0, None]), cold=rng.random() < 0.15,
+                          interleave=True)
         if thorough:
             exhaustive_small(ctx, rig)
         # formatter on a spread of records / caps / variants
@@ -954,6 +1182,7 @@ def exhaustive_small(ctx: Any, rig: Rig) -> None:
                     c = {"kind": kind, "m": m, "fin": fin, **({"iters": dem} if kind == "producer" else {"sends": dem})}
                     for cfg in (Config("pipe"), Config("http", None, "zstd"), Config("http", 1_000_000, None)):
                         check_run(ctx, rig, [c], cfg, debug=False, small_caps=[400])
+                    check_run(ctx, rig, [c], Config("http", None, "zstd"), debug=False, small_caps=[400], cache=0)
     ctx.note("exhaustive_small_calls", n)
 
 
@@ -978,6 +1207,7 @@ def replay(ctx: Any, case: dict[str, Any]) -> None:
             return
         kind, cap, codec = case["cfg"]
         caps = [case["cap"]] if isinstance(case.get("cap"), int) and case["cap"] != DEFAULT_CAP else [400, 900]
-        check_run(ctx, rig, case["prog"], Config(kind, cap, codec), bool(case.get("debug")), caps)
+        check_run(ctx, rig, case["prog"], Config(kind, cap, codec), bool(case.get("debug")), caps, cache=case.get("cache"),
+                  cold=bool(case.get("cold")), interleave=bool(case.get("interleave")))
     finally:
         rig.close()
